@@ -111,15 +111,16 @@ type entry struct {
 }
 
 type world struct {
-	sc     *scenario
-	ni     *node_info.NodeInfo
-	vm     *resource_info.ResourceVectorMap
-	tasks  map[int]*pod_info.PodInfo
-	ent    map[int]*entry // intended accounting entries (what the session believes is on the node)
-	ghost  map[int]*entry // terminating incarnation left behind by Consolidate
-	events []map[string]any
-	groups map[string]bool
-	dec    int // 1: the real fit functions take the decision of the operation about to be executed
+	sc      *scenario
+	ni      *node_info.NodeInfo
+	vm      *resource_info.ResourceVectorMap
+	tasks   map[int]*pod_info.PodInfo
+	ent     map[int]*entry // intended accounting entries (what the session believes is on the node)
+	ghost   map[int]*entry // terminating incarnation left behind by Consolidate
+	events  []map[string]any
+	groups  map[string]bool
+	dec     int // 1: the real fit functions take the decision of the operation about to be executed
+	restore bool
 }
 
 // decision re-takes a placement decision with the REAL code (actions/common.allocateTaskToNode on this
@@ -281,7 +282,13 @@ func (w *world) call(o op, callName string) {
 		err = w.ni.ConsolidateSharedPodInfoToDifferentGPU(t)
 	case "Remove":
 		err = w.ni.RemoveTask(t)
-		t.Status, t.NodeName = pod_status.Pending, ""
+		if w.restore {
+			w.restore = false
+			t.Status, t.GPUGroups = statusByName[o.St], cp(o.Grp)
+			w.ni.RestoreSharedPodInfoOnPreviousGPU(t)
+		} else {
+			t.Status, t.NodeName = pod_status.Pending, ""
+		}
 	default:
 		panic("unknown call " + callName)
 	}
@@ -330,6 +337,16 @@ func (w *world) apply(o op) {
 	case "Unallocate", "Unpipeline":
 		delete(w.ent, o.P)
 		o.St, o.Grp = "None", []string{}
+		w.call(o, "Remove")
+	case "UnpipelineMoved":
+		// Statement.unpipeline of a pipeline that had moved the pod to another GPU group of the node:
+		// RemoveTask(nominated copy) + RestoreSharedPodInfoOnPreviousGPU(task restored to Releasing on its
+		// previous groups) - the entry comes back, its resources were never removed
+		g := w.ghost[o.P]
+		delete(w.ghost, o.P)
+		w.ent[o.P] = g
+		o.St, o.Grp = g.St, cp(g.Grp)
+		w.restore = true
 		w.call(o, "Remove")
 	case "Consolidate":
 		w.dec = w.decision(o)
@@ -457,9 +474,9 @@ func runScenario(sc *scenario, out *tracefmt.Writer) (steps, mm int) {
 // ---------------------------------------------------------------------------------------------
 
 type edge struct {
-	A op  `json:"a"`
-	S int `json:"s"` // state identities (assigned by the driver from the TLC output)
-	T int `json:"t"`
+	A    op  `json:"a"`
+	S    int `json:"s"` // state identities (assigned by the driver from the TLC output)
+	T    int `json:"t"`
 	s, t int
 }
 
@@ -717,8 +734,10 @@ func (x *walker) undoLast() {
 	switch u.k {
 	case "alloc":
 		x.do(op{"Unallocate", u.p, "None", nil})
-	case "pipe", "cons":
+	case "pipe":
 		x.do(op{"Unpipeline", u.p, "None", nil})
+	case "cons":
+		x.do(op{"UnpipelineMoved", u.p, "Releasing", cp(u.pgrp)})
 	case "evict":
 		x.do(op{"Unevict", u.p, u.pst, cp(u.pgrp)})
 	}
